@@ -129,7 +129,7 @@ def run_case(case):
                 except TracerFailed:
                     raise
                 except Exception as e:       # noqa: BLE001
-                    obs = bracket_end_observables(self)
+                    obs = bracket_end_observables(self, str(e))
                     try:
                         z_ = [float(self.from_point[2]), float(self.to_point[2])]
                         obs["turn_depth_error"] = float(max(abs(float(self.ice.depth_with_index(self.ice.index(q))) - q) for q in z_))
@@ -373,7 +373,7 @@ def kf_basic_max_angle_nan(case, viol):
     d = viol["detail"]
     if not (case.get("tracer") == "basic" and viol["clause"] == "the configured ray tracer answers inside the kernel (no exception)"):
         return False
-    confined = ("r_at_max_angle" in d and math.isnan(d["r_at_max_angle"]) and math.isfinite(d.get("r_just_below_max_angle", float("nan")))
-                and math.isfinite(d.get("r_at_half_max_angle", float("nan"))) and d["r_at_half_max_angle"] > 0)
+    from vt.checks.c01 import nan_confined_to_bracket_end
+    confined = nan_confined_to_bracket_end(d)
     unresolved = d.get("turn_depth_error", 0.0) > d.get("z_turn_proximity", float("inf"))      # see KF-C01-basic-turning-depth-unresolved
     return ("NaN" in d.get("error", "") and confined) or (("NaN" in d.get("error", "") or "different signs" in d.get("error", "")) and unresolved)
